@@ -763,6 +763,9 @@ func (e *Exec) doSerial(c *Call, ev *Event, targets *[]int) bool {
 		}
 		*targets = []int{c.Dst}
 		return true
+	case "Adopt": // a decoded (untrusted) bitmap placed in a slot by the fuzz driver; its content is what the raw view shows
+		*targets = []int{c.Dst}
+		return true
 	case "Scribble": // overwrite every caller buffer no live un-detached bitmap depends on
 		// A buffer is scribbled only when every slot that was loaded from caller memory has been detached.
 		for s := 1; s <= NSLOT; s++ {
@@ -812,4 +815,14 @@ func alignedCopy(b []byte, al int) []byte {
 	return out
 }
 
-func extraCommand(name string, args []string) bool { return false }
+func extraCommand(name string, args []string) bool {
+	switch name {
+	case "fuzzdec":
+		cmdFuzzDec(args)
+		return true
+	case "bsi":
+		cmdBSI(args)
+		return true
+	}
+	return false
+}
